@@ -102,7 +102,7 @@ Definition do_insert (st : sstate) (nw : sid) (at_ : option sid) : res sstate :=
                        | Some p => match aget (st_attr st) p with Some pa => a_after pa | None => a_before ia end
                        | None => a_before ia
                        end in
-            Ok (upd_attr (set_stream st (insert_before nw iss l)) nw (mkattr bef (a_before ia) (a_orig ia) 0 None [] false false)))
+            Ok (upd_attr (set_stream st (insert_before nw iss l)) nw (mkattr (Z.min bef (a_before ia)) (Z.max bef (a_before ia)) (a_orig ia) 0 None [] false false)))     (* kept in order when the neighbours are associated out of order *)
       end
   end.
 
